@@ -105,7 +105,7 @@ func TestC06_ContentAddress(t *testing.T) {
 
 		// malformed encodings
 		raw := refMultihashBytes(alg, refDigest(alg, []byte(refJCS(v))))
-		kind := rapid.IntRange(0, 9).Draw(t, "malformed")
+		kind := rapid.IntRange(0, 10).Draw(t, "malformed")
 		var bad string
 		strict := true // must GetMultihashCode / IsComputedUsing reject it as well?
 		switch kind {
@@ -139,6 +139,10 @@ func TestC06_ContentAddress(t *testing.T) {
 				nc = 'B'
 			}
 			bad = want[:pos] + string(nc) + want[pos+1:]
+			strict = false
+		case 10: // digest shortened consistently (length field and digest agree): well formed, but not the hash of the value
+			k := rapid.IntRange(0, len(refDigest(alg, nil))-1).Draw(t, "shortLen")
+			bad = b64(refMultihashBytes(alg, refDigest(alg, []byte(refJCS(v)))[:k]))
 			strict = false
 		case 9: // line breaks inside or after the encoding (Go's base64 decoder skips CR and LF silently)
 			pos := rapid.IntRange(0, len(want)).Draw(t, "nlpos")
